@@ -4,10 +4,12 @@
     denotes exactly (-1)^neg * 0.ds * 10^k.  Whole commands: the parameter text of ANY rendered word list reads back
     (tokenizer of Model/Words.v) as exactly those letters with exactly those number texts and no remainder, and the
     argument list of every merged deferred command that can be pending has pairwise distinct non-empty labels.
-    PARTIAL: that the fixed templates (G92 E / G0 F X Y / G0 F Z / G1 F E / G10 / G11) use distinct letters is read off
-    `render` and checked by the oracle (independent reader) and the character-for-character correspondence. *)
+    Fixed templates (G92 E / G0 F Z / G0 F X Y / G1 F E): any text the correspondence accepts as their rendering has that one
+    code and exactly those pairwise distinct letters, each with a number (C07_template_shape); G10 / G11 carry the original
+    command's parameters verbatim (C05).  The oracle of this check reads every generated command of the real handlers with an
+    independent RS274 reader. *)
 From Coq Require Import QArith ZArith String Ascii List Bool.
-From ER Require Import Base.Num Model.Lexer Model.Words Model.Format Model.Axis Model.Filter Proofs.WordsProps Proofs.FormatProps Proofs.Deferred Proofs.CommandShape.
+From ER Require Import Base.Num Model.Lexer Model.Words Model.Format Model.Axis Model.Filter Proofs.WordsProps Proofs.FormatProps Proofs.Deferred Proofs.CommandShape Model.Cases Model.Run Proofs.Templates.
 Import ListNotations.
 Local Open Scope string_scope.
 
@@ -28,6 +30,11 @@ Theorem C07_merged_labels_distinct : forall (T : Type) (N : Num T) modef (seen :
   consistent modef seen -> assoc g (pend_after seen) = Some (PArgs args) -> NoDup (map fst args) /\ ~ In "" (map fst args).
 Proof. exact @merged_labels_distinct. Qed.
 
+(** the fixed templates: one code, the expected pairwise distinct letters, a number each *)
+Theorem C07_template_shape : forall o e code letters, template o = Some (code, letters) -> ocmd_match o e = true ->
+  ecode e = code /\ map fst (ewords e) = letters /\ NoDup letters /\ Forall (fun w => exists v, snd w = MNum v) (ewords e).
+Proof. exact template_shape. Qed.
+
 (** zero is rendered "0.0" / "-0.0" *)
 Theorem C07_zero : layout false "" 0 = "0.0" /\ layout true "" 0 = "-0.0".
 Proof. split; reflexivity. Qed.
@@ -41,5 +48,6 @@ Print Assumptions C07_number_plain_decimal.
 Print Assumptions C07_number_exact.
 Print Assumptions C07_words_read_back.
 Print Assumptions C07_merged_labels_distinct.
+Print Assumptions C07_template_shape.
 Print Assumptions C07_zero.
 Print Assumptions C07_exponent_form_refuted.
